@@ -450,3 +450,252 @@ def c10_mk(kind, data, nodata=None):
                 continue
             bad.append((name, g, r))
     return {"violates": bool(bad), "got": got, "expected": list(ref), "bad": bad}
+
+
+# ------------------------------------------------------------------ smoothers (C02-C06)
+def _pls(y, w, lam):
+    n = len(y)
+    D = np.diff(np.eye(n), 2, axis=0)
+    A = np.diag(w) + lam * D.T @ D
+    return np.linalg.solve(A, w * y)
+
+
+def _valid(y, nodata):
+    return ((y != nodata) & np.isfinite(y)).astype("float64")
+
+
+def _asym(y, w, lam, p, z0=None, passes=10):
+    z = np.zeros(len(y)) if z0 is None else z0.copy()
+    ww = w.copy()
+    for _ in range(passes):
+        ww = w * np.where(y > z, p, 1 - p)
+        znew = _pls(y, ww, lam)
+        if np.sum(np.abs(znew - z)) == 0:
+            break
+        z = znew
+    return z, _pls(y, ww, lam)
+
+
+def _rhe_match(out, z, tol=1e-6):
+    """out equals half-even rounding of z, a unit of slack only where z sits on a rounding tie."""
+    bad = []
+    for i, (o, v) in enumerate(zip(out, z)):
+        r = np.round(v)
+        if o == r:
+            continue
+        frac = abs(v - np.floor(v) - 0.5)
+        if frac < tol and abs(o - v) <= 0.5 + tol:
+            continue
+        bad.append((i, float(o), float(v)))
+    return bad
+
+
+def _ref_fixed(y, lam, nodata, p):
+    w = _valid(y, nodata)
+    if lam == 0 or w.sum() < 2:
+        return None
+    yy = np.where(w > 0, y, 0.0)
+    if p is None:
+        return _pls(yy, w, lam)
+    return _asym(yy, w, lam, p)[1]
+
+
+def _series(data, nodata):
+    return np.array([nodata if v is None else v for v in data], dtype="float64")
+
+
+def c03_fixed(kernel, data, nodata, lmda=None, p=None, lmda0=False, mode=None, sg=None, s=None):
+    import hdc.algo  # noqa
+    from hdc.algo import ops
+    rng = np.random.default_rng(7)
+    base = _series(data, nodata)
+    trials = []
+    lam0 = 0.0 if lmda0 else (float(lmda) if lmda is not None else None)
+    if kernel == "whits":
+        if mode == "sg":
+            lam0 = 10.0 ** float(sg)
+        elif mode == "sg-inf":
+            lam0 = 0.0
+        else:
+            lam0 = float(s)
+    lams = [lam0] if lam0 == 0 else [lam0, 0.5, 10.0, 1000.0]
+    ps = [None] if p is None else [float(p), 0.1, 0.9, 0.99]
+    for k, (lam, pp) in enumerate([(a, b) for a in lams for b in ps]):
+        y = base.copy()
+        if k > 0:
+            obs = y != nodata
+            y[obs] = np.round(y[obs] * rng.choice([1, 10, 100]) + rng.integers(-50, 50, obs.sum()))
+            y[obs & (y == nodata)] += 1
+        trials.append((y, lam, pp))
+    for y, lam, pp in trials:
+        if not (0 < lam < 1e9) and lam != 0:
+            continue
+        if kernel == "whits":
+            import xarray as xr
+            da = xr.DataArray(y.astype("int16").reshape(-1, 1, 1), dims=("time", "y", "x"), attrs={"nodata": nodata})
+            kw = {}
+            if mode in ("sg", "sg-inf"):
+                kw["sg"] = xr.DataArray(np.array([[np.log10(lam) if lam > 0 else -np.inf]]), dims=("y", "x"))
+            else:
+                kw["s"] = lam
+            if pp is not None:
+                kw["p"] = pp
+            out = da.hdc.whit.whits(nodata, **kw).transpose("time", ...).values[:, 0, 0].astype("float64")
+            y = y.astype("int16").astype("float64")
+        elif kernel == "ws2dgu":
+            out = ops.ws2dgu(y, lam, nodata).astype("float64")
+        else:
+            out = ops.ws2dpgu(y, lam, nodata, pp if pp is not None else 0.5).astype("float64")
+        z = _ref_fixed(y, lam, nodata, pp if kernel != "ws2dgu" else None)
+        if z is None:
+            bad = [(i, float(o), float(v)) for i, (o, v) in enumerate(zip(out, y)) if o != v]
+        else:
+            if np.max(np.abs(z)) > 32000:
+                continue
+            bad = _rhe_match(out, z)
+        if bad:
+            return {"violates": True, "y": y, "lam": lam, "p": pp, "bad": bad[:4], "out": out}
+    if kernel == "ws2dpgu" or (kernel == "whits" and p is not None):
+        # witness shaped after the candidate's path: a series on which the reweighting does not settle within 10 passes
+        r = _nonconverging_witness(kernel, nodata)
+        if r is not None:
+            return r
+    if kernel == "whits" and mode == "sg":
+        r = _whits_sgrid_alignment(nodata, p)
+        if r is not None:
+            return r
+    return {"violates": False, "trials": len(trials)}
+
+
+def _nonconverging_witness(kernel, nodata, budget=400):
+    from hdc.algo import ops
+    rng = np.random.default_rng(11)
+    found = 0
+    for k in range(budget):
+        n = int(rng.integers(8, 15))
+        y = np.round(rng.gamma(0.4, 400.0, n) + 10).astype("float64")
+        y[y == nodata] += 1
+        pp = float(rng.choice([0.99, 0.999, 0.01, 0.001]))
+        lam = float(rng.choice([100.0, 1000.0, 10.0]))
+        w = np.ones(n)
+        z = np.zeros(n)
+        settled = False
+        for _ in range(10):
+            ww = w * np.where(y > z, pp, 1 - pp)
+            znew = _pls(y, ww, lam)
+            if np.sum(np.abs(znew - z)) == 0:
+                settled = True
+                break
+            z = znew
+        if settled:
+            continue
+        found += 1
+        zf = _pls(y, ww, lam)
+        if np.max(np.abs(zf)) > 32000:
+            continue
+        out = ops.ws2dpgu(y, lam, nodata, pp).astype("float64")
+        bad = _rhe_match(out, zf)
+        if bad:
+            return {"violates": True, "why": "reweighting not settled after 10 passes", "y": y, "lam": lam, "p": pp, "bad": bad[:4]}
+        if found >= 25:
+            break
+    return None
+
+
+def _whits_sgrid_alignment(nodata, p):
+    """Per-pixel sgrid given with dims in another order than the cube's: every pixel must be smoothed with ITS lambda."""
+    import xarray as xr
+    import hdc.algo  # noqa
+    rng = np.random.default_rng(5)
+    T, Y, X = 8, 2, 3
+    cube = np.round(rng.normal(500, 150, (T, Y, X))).astype("int16")
+    sg_yx = np.array([[-1.0, 0.0, 1.0], [2.0, 3.0, -np.inf]])
+    da = xr.DataArray(cube, dims=("time", "y", "x"), attrs={"nodata": nodata})
+    sg = xr.DataArray(sg_yx.T.copy(), dims=("x", "y"))
+    kw = {"sg": sg}
+    if p is not None:
+        kw["p"] = float(p)
+    try:
+        res = da.hdc.whit.whits(nodata, **kw).transpose("time", "y", "x").values
+    except Exception as e:  # noqa
+        return {"violates": True, "why": f"whits with a transposed sgrid raised {type(e).__name__}: {e}"[:300]}
+    for yy in range(Y):
+        for xx in range(X):
+            lam = 10.0 ** sg_yx[yy, xx] if np.isfinite(sg_yx[yy, xx]) else 0.0
+            series = cube[:, yy, xx].astype("float64")
+            z = _ref_fixed(series, lam, nodata, None if p is None else float(p))
+            out = res[:, yy, xx].astype("float64")
+            bad = [(i, o, v) for i, (o, v) in enumerate(zip(out, series)) if o != v] if z is None else _rhe_match(out, z)
+            if bad:
+                return {"violates": True, "why": f"pixel ({yy},{xx}) not smoothed with its own lambda 10**{sg_yx[yy, xx]}", "bad": bad[:3]}
+    return None
+
+
+def _run_smoother(kernel, y, nodata, lam=None, p=None, llas=None, robust=False, lc=None):
+    from hdc.algo import ops
+    f = getattr(ops, kernel)
+    if kernel == "ws2dgu":
+        return f(y, lam, nodata).astype("float64"), None
+    if kernel == "ws2dpgu":
+        return f(y, lam, nodata, p).astype("float64"), None
+    if kernel == "ws2doptv":
+        o, l = f(y, nodata, llas)
+    elif kernel == "ws2doptvp":
+        o, l = f(y, nodata, p, llas)
+    elif kernel == "ws2doptvplc":
+        o, l = f(y.astype("int16"), nodata, p, lc)
+    elif kernel == "ws2dwcv":
+        o, l = f(y, nodata, llas, robust)
+    else:
+        o, l = f(y, nodata, p, llas, robust)
+    return np.asarray(o).astype("float64"), float(l)
+
+
+def c02_placeholder(kernel, data, nd1, nd2, special=None, robust=False, lc=0.7, grid=3, lam=1.0, p=0.5, l0=0.0, lstep=1.0):
+    rng = np.random.default_rng(3)
+    sp = {None: None, "nan": np.nan, "inf": np.inf, "-inf": -np.inf}[special]
+    valid = [v is not None for v in data]
+    nmin = 5 if kernel in ("ws2dwcv", "ws2dwcvp") else 2
+    trials = []
+    lam = float(lam) if 0 < float(lam) < 1e8 else 10.0
+    p = float(p) if 0 < float(p) < 1 else 0.9
+    l0, lstep = float(l0), float(lstep)
+    if not (-4 <= l0 <= 4 and 0.05 <= lstep <= 3):
+        l0, lstep = -1.0, 1.0
+    grids = [np.array([l0 + k * lstep for k in range(int(grid))]), np.arange(-2, 2.2, 0.4), np.arange(-1.8, 4.2, 0.2)]
+    base = np.array([0 if v is None else float(v) for v in data])
+    # given length first, then the same gap layout stretched over a noisy seasonal series
+    series = [(base, valid)]
+    for k in range(3):
+        series.append((np.round(base * rng.choice([1, 7, 50]) + rng.integers(-300, 300, len(base))), valid))
+    for L in (12, 24, 36):
+        t = np.arange(L)
+        s = np.round(3000 + 2500 * np.sin(2 * np.pi * t / 12.0) + rng.normal(0, 300, L))
+        v2 = [valid[int(i * len(valid) / L)] for i in range(L)]
+        series.append((s, v2))
+    placeholders = [(int(nd1), int(nd2)), (-3000, 1500), (0, 32767), (-3000, 9999)]
+    for (vals, vmask), (a, b), g in [(s_, p_, g_) for s_ in series for p_ in placeholders[:2] for g_ in grids[:2]] + \
+            [(series[-1], placeholders[2], grids[2]), (series[-2], placeholders[3], grids[2])]:
+        vmask = np.array(vmask)
+        if special is None and (np.any(vals[vmask] == a) or np.any(vals[vmask] == b)):
+            continue
+        y1 = np.where(vmask, vals, a).astype("float64")
+        y2 = np.where(vmask, vals, b if sp is None else sp).astype("float64")
+        kw = dict(lam=lam, p=p, llas=g.astype("float64"), robust=bool(robust), lc=float(lc))
+        try:
+            o1, l1 = _run_smoother(kernel, y1, a, **kw)
+            o2, l2 = _run_smoother(kernel, y2, b, **kw)
+        except Exception as e:  # noqa
+            return {"violates": True, "why": f"raised {type(e).__name__}: {e}"[:200], "y1": y1, "y2": y2}
+        if vmask.sum() < nmin:
+            ok = np.array_equal(o1, y1.astype("int16").astype("float64")) and (l1 is None or l1 == 0)
+            if not ok:
+                return {"violates": True, "why": "too few valid cells must be returned unchanged with lambda 0", "y": y1, "out": o1, "lopt": l1}
+            continue
+        if np.max(np.abs(o1)) > 32000:
+            continue
+        same_l = (l1 is None) or (l1 == l2) or (l1 and abs(l1 - l2) <= 1e-9 * abs(l1))
+        if not np.array_equal(o1, o2) or not same_l:
+            return {"violates": True, "why": "result depends on the placeholder", "y1": y1, "y2": y2, "nd": [a, b if sp is None else special],
+                    "out1": o1, "out2": o2, "lopt": [l1, l2], "llas": g}
+    return {"violates": False}
